@@ -264,7 +264,8 @@ def nice_model(path, inp, extra=(), timeout_ms=10000):
             nice.append(z3.Or(a - b >= z3.RealVal("1/8"), b - a >= z3.RealVal("1/8")))
     for v in ints:
         nice.append(z3.And(v >= -1000, v <= 1000))
-    for cons in (base + nice, base + [c for c in nice[: 2 * len(reals)]] + nice[-len(ints) :] if ints else base + nice[: 2 * len(reals)], base):
+    mild = [z3.And(r >= -1000, r <= 1000) for r in reals] + [z3.And(v >= -1000, v <= 1000) for v in ints]
+    for cons in (base + nice, base + [c for c in nice[: 2 * len(reals)]] + nice[-len(ints) :] if ints else base + nice[: 2 * len(reals)], base + mild, base):
         r, m = symx.solve_fresh(cons, timeout_ms)
         if r == "sat":
             return m
